@@ -15,6 +15,11 @@
 // along with this program.  If not, see <http://www.gnu.org/licenses/>.
 use crate::adapter::{Adapter, DynAdapter};
 use anyhow::{anyhow, Result};
+#[cfg(melda_verif_sched)]
+use crate::verif_sched::{Arc, Mutex, RwLock};
+#[cfg(melda_verif_sched)]
+use std::{any::Any, cell::RefCell, collections::BTreeMap};
+#[cfg(not(melda_verif_sched))]
 use std::{
     any::Any,
     cell::RefCell,
